@@ -1,3 +1,4 @@
+#[cfg_attr(parol_verif, allow(unused_imports))]
 use std::{
     collections::{HashMap, HashSet},
     error::Error,
@@ -144,6 +145,8 @@ impl Server {
         )?;
         grammar_config.update_cfg(cfg);
         let grammar_config = grammar_config.clone();
+        #[cfg(parol_verif)]
+        use crate::verif_sync::thread;
         thread::spawn(move || match grammar_config.grammar_type {
             GrammarType::LLK => {
                 if let Err(err) = calculate_lookahead_dfas(&grammar_config, max_k) {
@@ -836,6 +839,8 @@ impl Server {
         let result = PublishDiagnosticsParams::new(uri, vec![], Some(version));
         let params = serde_json::to_value(result).unwrap();
         let method = <PublishDiagnostics as Notification>::METHOD.to_string();
+        #[cfg(parol_verif)]
+        crate::verif_sync::point(crate::verif_sync::Point::BeforePublish);
         connection
             .sender
             .send(Message::Notification(lsp_server::Notification {
@@ -859,6 +864,8 @@ impl Server {
         );
         let params = serde_json::to_value(result).unwrap();
         let method = <PublishDiagnostics as Notification>::METHOD.to_string();
+        #[cfg(parol_verif)]
+        crate::verif_sync::point(crate::verif_sync::Point::BeforePublish);
         connection
             .sender
             .send(Message::Notification(lsp_server::Notification {
@@ -887,6 +894,8 @@ impl Server {
         );
         let params = serde_json::to_value(result).unwrap();
         let method = <PublishDiagnostics as Notification>::METHOD.to_string();
+        #[cfg(parol_verif)]
+        crate::verif_sync::point(crate::verif_sync::Point::BeforePublish);
         connection
             .sender
             .send(Message::Notification(lsp_server::Notification {
